@@ -70,6 +70,11 @@ CHECKS.update({
              text="Bounded symbolic checking: for each build script in the list (single/bulk inserts, deferred commit/index, re-index, ignore-doubles) with symbolic coordinates and query, every answer after 1-2 reopen cycles equals the answer before closing, for both metric flags.",
              note="SQL shim models only the statements the code issues (parsed at run time) and the float32 R-tree rounding as an interval; 3 nodes; pyproj/rtree absent."),
 })
+CHECKS.update({
+ 'C12': dict(tech="relational symbolic execution: the same symbolic map in the real InMemMap and the real SqliteMap (parsing SQL shim validated against sqlite3; replay on real sqlite3), answers and an edge matcher compared per path (z3)", ref="5/C12",
+             text="Bounded symbolic checking: node set, coordinates, neighbours (mod self), edge neighbours, edge listing, bounding box and box-restricted node listing (up to the float32 rounding of the R-tree) coincide for all coordinates / boxes within the bounds; an edge matcher gives the same index and probability on both backends.",
+             note="2-4 integer-labelled nodes; matcher part on a concrete unit-square layout with symbolic observations; float32 band 2^-21 relative."),
+})
 NA = {
  'C15': "error bound between two transcendental computations (great-circle vs locally projected planar): needs a delta-complete procedure for sin/cos/atan2; z3 has none and cvc5 QF_NRAT timed out on the 3-variable core (DESIGN.md section 8)",
 }
